@@ -71,7 +71,10 @@ pub fn cmp_field(m: &Field<MetaForm>, p: &Field<PortableForm>, c: &mut Cmp) {
 
 pub fn cmp_fields(m: &[Field<MetaForm>], p: &[Field<PortableForm>], c: &mut Cmp) {
     if m.len() != p.len() {
+        // positions cannot be aligned: pairing them anyway would blame ids
+        // for what is a length mismatch
         c.structural("fields.len", || format!("{} vs {}", m.len(), p.len()));
+        return;
     }
     for (a, b) in m.iter().zip(p) {
         cmp_field(a, b, c);
@@ -112,9 +115,10 @@ pub fn cmp_def(m: &TypeDef<MetaForm>, p: &TypeDef<PortableForm>, c: &mut Cmp) {
                 c.structural("variants.len", || {
                     format!("{} vs {}", a.variants.len(), b.variants.len())
                 });
-            }
-            for (x, y) in a.variants.iter().zip(&b.variants) {
-                cmp_variant(x, y, c);
+            } else {
+                for (x, y) in a.variants.iter().zip(&b.variants) {
+                    cmp_variant(x, y, c);
+                }
             }
         }
         (TypeDef::Sequence(a), TypeDef::Sequence(b)) => {
@@ -129,9 +133,10 @@ pub fn cmp_def(m: &TypeDef<MetaForm>, p: &TypeDef<PortableForm>, c: &mut Cmp) {
         (TypeDef::Tuple(a), TypeDef::Tuple(b)) => {
             if a.fields.len() != b.fields.len() {
                 c.structural("tuple.arity", || format!("{} vs {}", a.fields.len(), b.fields.len()));
-            }
-            for (x, y) in a.fields.iter().zip(&b.fields) {
-                c.pairs.push((*x, y.id));
+            } else {
+                for (x, y) in a.fields.iter().zip(&b.fields) {
+                    c.pairs.push((*x, y.id));
+                }
             }
         }
         (TypeDef::Primitive(a), TypeDef::Primitive(b)) => {
@@ -174,9 +179,10 @@ pub fn cmp_type(m: &Type<MetaForm>, p: &Type<PortableForm>, c: &mut Cmp) {
         c.structural("params.len", || {
             format!("{} vs {}", m.type_params.len(), p.type_params.len())
         });
-    }
-    for (a, b) in m.type_params.iter().zip(&p.type_params) {
-        cmp_param(a, b, c);
+    } else {
+        for (a, b) in m.type_params.iter().zip(&p.type_params) {
+            cmp_param(a, b, c);
+        }
     }
     if !strs_eq(&m.docs, &p.docs) {
         c.note("type.docs", || format!("{:?} vs {:?}", m.docs, p.docs));
@@ -206,7 +212,18 @@ pub fn check_well_formed(
             format!("entry {} mentions id {} but the registry has {} entries", i, id, p.len())
         })?;
     }
-    // resolve(id) returns exactly the type labelled id; resolve(len) is none
+    // resolve(id) returns exactly the type labelled id; resolve(len) is none.
+    // A panicking resolve is C01's (and C14's) business, not the caller's.
+    let probe_resolve = crate::core::catch(|| {
+        for (id, _) in &p.types {
+            let _ = lib.resolve(*id);
+        }
+        let _ = lib.resolve(p.len() as u32);
+    });
+    if let Err(msg) = probe_resolve {
+        fail(mask, "C01", &format!("resolve_panicked.{}", origin), || msg.clone())?;
+        return Ok(());
+    }
     for (i, (id, t)) in p.types.iter().enumerate() {
         match lib.resolve(*id) {
             Some(r) if *id as usize == i => {
